@@ -335,6 +335,9 @@ def __contains__(a, key) -> bool:
     key = tuple(_flatten(key)) if (hasattr(key,'__iter__') or hasattr(key,'__next__')) else (key,)
     if a.isdiag:
         return key in a.struct.t or (key+key) in a.struct.t
+    nsym = a.config.sym.NSYM
+    if nsym > 0 and len(key) == a.ndim_n * nsym:  # account for lazy transposition, as in __getitem__
+        key = tuple(x for i in np.argsort(a.trans).tolist() for x in key[i * nsym: (i + 1) * nsym])
     return key in a.struct.t
 
 ##################################################
